@@ -1,3 +1,5 @@
+import RedisEmu.Props.C06
+import RedisEmu.Props.C07
 import RedisEmu.Exec
 import RedisEmu.Proofs.State
 import Mathlib.Tactic.SplitIfs
@@ -134,5 +136,74 @@ theorem execQueue_length (conn : Nat) (q : List Queued) :
           simp only [hcr] at hnc ⊢
           rw [ih _ _ _ _ _ _ (fun y hy => hne y (by simp [hy])) hnc]
           simp only [List.length_cons]; omega
+
+
+/-! ### a transaction is a history of commands -/
+
+/-- **What EXEC runs is a history of commands.** The state after the queued commands of a transaction
+    is the state after a run of ordinary commands — each the parsed form of a queued command, well-formed,
+    under the same quirk flags, bound to the database that was selected when it was queued, with clocks
+    that only move forward — so everything proved about histories (the keyspace invariant, versions,
+    expired = missing) holds inside transactions too. -/
+theorem execQueue_is_history (conn : Nat) (q : List Queued) :
+    ∀ (c : Ctx) (impls : List Value) (s : State) (vs : List Value) (hs : List Match) (ps : List (Nat × Bytes × Nat)),
+      ∃ evs : List Ev, (execQueue c conn q impls s vs hs ps).1 = runEvents s evs ∧
+        (∀ e ∈ evs, e.c.q = c.q ∧ e.cmd.wf = true ∧ e.conn = conn ∧ e.inMulti = true) ∧ clocksFrom c.now evs := by
+  induction q with
+  | nil => intro c impls s vs hs ps; exact ⟨[], by simp [execQueue, runEvents], by simp, trivial⟩
+  | cons x r ih =>
+    intro c impls s vs hs ps
+    unfold execQueue
+    split
+    · exact ih c impls s vs hs ps
+    · rename_i name args hargv
+      split
+      · exact ih c _ s _ _ ps
+      · split
+        · exact ih c _ s _ _ ps
+        · rename_i cmd hp
+          have hw := parseCmdQ_wf c.q name args cmd hp
+          dsimp only
+          split
+          · refine ⟨[⟨{ c with now := c.now + 1000, impl := impls.head? }, conn, x.dbRef, true, cmd⟩], ?_, ?_, ?_⟩
+            · simp [runEvents]
+            · intro e he
+              simp only [List.mem_singleton] at he
+              subst he
+              exact ⟨rfl, hw, rfl, rfl⟩
+            · exact ⟨(by show c.now ≤ c.now + 1000; omega), trivial⟩
+          · obtain ⟨evs, h1, h2, h3⟩ := ih { c with now := c.now + 1000, impl := impls.head? } impls.tail
+              (runCmd { c with now := c.now + 1000, impl := impls.head? } s conn x.dbRef true cmd).st
+              (downIf ((runCmd { c with now := c.now + 1000, impl := impls.head? } s conn x.dbRef true cmd).st.session conn).resp
+                  { c with now := c.now + 1000, impl := impls.head? }
+                  (runCmd { c with now := c.now + 1000, impl := impls.head? } s conn x.dbRef true cmd).reply :: vs)
+              _ _
+            refine ⟨⟨{ c with now := c.now + 1000, impl := impls.head? }, conn, x.dbRef, true, cmd⟩ :: evs, ?_, ?_, ?_⟩
+            · simp only [runEvents]; exact h1
+            · intro e he
+              rcases List.mem_cons.mp he with e1 | e1
+              · subst e1; exact ⟨rfl, hw, rfl, rfl⟩
+              · exact h2 e e1
+            · exact ⟨(by show c.now ≤ c.now + 1000; omega), h3⟩
+
+/-- a transaction keeps the keyspace invariant in every database -/
+theorem exec_keeps_invariant (c : Ctx) (conn : Nat) (q : List Queued) (impls : List Value) (s : State)
+    (vs : List Value) (hs : List Match) (ps : List (Nat × Bytes × Nat)) (hi : s.KInv) :
+    (execQueue c conn q impls s vs hs ps).1.KInv := by
+  obtain ⟨evs, h1, h2, _⟩ := execQueue_is_history conn q c impls s vs hs ps
+  rw [h1]
+  exact runEvents_inv evs s hi (fun e he => (h2 e he).2.1)
+
+/-- every key a transaction changes gets a new version, every key it leaves alone keeps its object -/
+theorem exec_versions (c : Ctx) (conn : Nat) (q : List Queued) (impls : List Value) (s : State)
+    (vs : List Value) (hs : List Match) (ps : List (Nat × Bytes × Nat)) (hu : s.Uniq)
+    (hq : c.q.inplaceKeepsVersion = false ∧ c.q.unlinkKeepsObject = false ∧ c.q.flushDetaches = false) :
+    AllVS s (execQueue c conn q impls s vs hs ps).1 := by
+  obtain ⟨evs, h1, h2, _⟩ := execQueue_is_history conn q c impls s vs hs ps
+  rw [h1]
+  refine runEvents_versions evs s hu (fun e he => ?_)
+  unfold Ev.repaired
+  rw [(h2 e he).1]
+  exact hq
 
 end RedisEmu
